@@ -59,6 +59,9 @@ def gen(rng, tier):
         lf = servers.leaves(tree)[0]
         lf['fail'] = {'xs': sorted(rng.sample(allx, min(len(allx), 3))), 'exc': 'ExcA'}
     sc = {'tree': tree, 'capacity': cap, 'async': is_async, 'callers': callers, 'post': [next(nxt)], 'class': 'clean' if clean else 'faulty'}
+    if not clean and rng.random() < 0.3:
+        # leave the context at once, with abandoned / timed-out work still in flight; then the stopped server is idle by definition
+        sc['exit_busy'] = True
     cfg = swarm(rng, racy=0.0 if clean else 0.35, line=0.3, max_time=400.0, max_steps=600_000)
     return {'scenario': sc, 'sim': cfg}
 
@@ -66,6 +69,8 @@ def gen(rng, tier):
 def shrink(sc):
     from checks.c02_server_results import shrink as s2
     yield from s2(sc)
+    if sc.get('exit_busy'):
+        yield {k: v for k, v in sc.items() if k != 'exit_busy'}
     if sc['capacity'] > 1:
         yield dict(sc, capacity=sc['capacity'] - 1)
 
@@ -148,6 +153,11 @@ def run(sim, sc):
                 sim.violation('outcome:differs-from-reference', {'request': r.brief(), 'why': why})
     if out.backlog_end:
         sim.violation('backlog:not-zero-when-idle', {'backlog': out.backlog_end})
+    elif out.backlog_after_exit:
+        # every accepted request's result emerged from the workers before they exited, or the request was accepted after they had
+        # stopped: either way a slot was not given back
+        sim.violation('backlog:not-zero-after-exit:' + ('first-end-marker-stops-reader' if servers.multi_writer(sc['tree']) else 'single-writer-chain'),
+                      {'backlog': out.backlog_after_exit, 'exit_busy': bool(sc.get('exit_busy'))})
     if state['peak'] >= cap:
         sim.count('backlog_reached_capacity')
     return {'kinds': kinds, 'peak': state['peak']}
